@@ -1,6 +1,8 @@
 #!/bin/sh
-# Offline setup: nothing to download. Pre-builds the dependency artefacts for kani (optional cache).
+# Offline setup: nothing to download.  Sanity-checks the registry and guards the rangemap model
+# (native differential run against the real crate; guards the model, not part of any solver claim).
 cd "$(dirname "$0")" || exit 1
 mkdir -p evidence replays
 python3 tools/vcheck.py --list >/dev/null || exit 1
+( cd tools/rangemap_model_check && CARGO_NET_OFFLINE=true CARGO_TARGET_DIR=/var/tmp/verif-rangemap-check cargo run --offline --release 2>&1 | tail -1; rm -rf /var/tmp/verif-rangemap-check ) || true
 exit 0
